@@ -55,6 +55,9 @@ def _trivial(fn):
 
 def run(ctx):
     rep = ctx.rep
+    rep.rule("C04.R7", "dependence monotonicity (K13) over every primal/derivative pair of K5: a stated derivative reads no datum its primal does not read", 30)
+    from .. import depmono as _dm
+    _dm.check_k5_pairs(ctx, "C04.R7", ['RigidBody', 'PointMass', 'Frame'])
     rep.rule("C04.R1", "chain-rule coverage (K5) of the discrete bodies", 15)
     rep.rule("C04.R2", "Frame time chain", 4)
     rep.rule("C04.R3", "offset dependence of the point kinematics family", 10)
